@@ -140,6 +140,38 @@ theorem c19_exactly_once (s : S) (uid name : List Char) (msg : Nat) (hst : start
   rw [fold_record s.handlers s.records uid name msg hst, hlive]
   by_cases h : accepts uid name <;> simp [h]
 
+theorem started_log (s : S) (uid name : List Char) (msg : Nat) (h : started s uid) :
+    started (step s (.log name msg)) uid := by
+  unfold started at *
+  simp only [step]
+  generalize s.handlers = hs
+  generalize s.records = rs at h
+  induction hs generalizing rs with
+  | nil => simpa using h
+  | cons x xs ih =>
+    simp only [List.foldl_cons]
+    split
+    · exact ih _ ((appendTo_keeps_uids rs x ⟨name, msg⟩ uid).mpr h)
+    · exact ih _ h
+
+/-- C19 emission order: while a run is live (exactly one handler of it is registered), any sequence of
+    messages logged by any loggers leaves in its record exactly the accepted ones, each once, in emission
+    order, after what was there before -/
+theorem c19_emission_order (msgs : List (List Char × Nat)) (s : S) (uid : List Char) (hst : started s uid)
+    (hlive : s.handlers.count uid = 1) :
+    recordOf (run s (msgs.map (fun p => Op.log p.1 p.2))) uid =
+      recordOf s uid ++ (msgs.filter (fun p => accepts uid p.1)).map (fun p => ⟨p.1, p.2⟩) := by
+  induction msgs generalizing s with
+  | nil => simp [run]
+  | cons m ms ih =>
+    simp only [List.map_cons, run, List.foldl_cons]
+    have h1 := c19_exactly_once s uid m.1 m.2 hst hlive
+    have hl : (step s (.log m.1 m.2)).handlers.count uid = 1 := by simpa [step] using hlive
+    have := ih (step s (.log m.1 m.2)) (started_log s uid m.1 m.2 hst) hl
+    simp only [run] at this
+    rw [this, h1]
+    by_cases hacc : accepts uid m.1 <;> simp [hacc]
+
 /-- C19: once the run has ended (its handler is gone) nothing logged later alters its record -/
 theorem c19_finished_record_immutable (s : S) (uid name : List Char) (msg : Nat) (hst : started s uid)
     (hgone : uid ∉ s.handlers) : recordOf (step s (.log name msg)) uid = recordOf s uid := by
